@@ -2179,7 +2179,16 @@ def o_derived(case):
     return None
 
 
+def _rx_oracle(name):
+    def f(case):
+        from harness.props import c03_r1516 as rx
+        return rx.ORACLES[name](case)
+    return f
+
+
 ORACLES = {
+    'close-values': _rx_oracle('close-values'),            # R15
+    'argument-identity': _rx_oracle('argument-identity'),  # R16
     'derived-objects': o_derived,
     'transmit': o_history,
     'linearity': o_linear,
@@ -2499,6 +2508,18 @@ RTAGS = ['R1:signal-dtype', 'R1:fft-type', 'R1:idx-dtype', 'R1:pl-type', 'R1:pl-
          'R13:deepcopy-continued', 'R14:count>=257']
 REQUIRED += ['corr:' + t for t in RTAGS] + ['oracle:' + t for t in RTAGS]
 REQUIRED += ['oracle:R13:derived-objects', 'oracle:R12:tap-order', 'corr:R12:tap-order', 'oracle:R14:profile-taps>=257']
+# R15 (distinct values that are merely close) / R16 (argument identity and buffer reuse): harness/props/c03_r1516.py
+R1516_TAGS = ['R15:pathloss-close-to-previous', 'R15:tap-power-below-1e-8',
+              'R16:signal-from-reused-buffer', 'R16:index-array-from-reused-buffer',
+              'R16:pathloss-matrix-from-reused-buffer', 'R16:argument-overwritten-after-call',
+              'R16:signal-is-index-array', 'R16:sources-share-array', 'R16:buffer-refilled-in-place',
+              'R16:tap-arrays-overwritten-after-construction']
+REQUIRED += ['corr:' + t for t in R1516_TAGS] + ['oracle:' + t for t in R1516_TAGS]
+REQUIRED += ['oracle:R15:pathloss-tiny', 'oracle:R15:pathloss-near1', 'oracle:R15:pathloss-pairs',
+             'oracle:R15:tap-powers', 'oracle:R15:discretize-close-Ts', 'oracle:R15:ctor-Ts',
+             'oracle:R16:profile-args', 'oracle:R16:concatenate',
+             'corr:R15:ctor-Ts:close-but-different', 'corr:R15:ctor-Ts:equal', 'corr:R15:discretize:delays-within-1e-8',
+             'corr:R15:discretize:delays-differ-by-1e-6-relative', 'corr:R15:discretize:powers-span>=1e8']
 
 
 def check(ctx):
@@ -2521,6 +2542,9 @@ def check(ctx):
         try:
             correspondence(ctx, 900 if quick else 9000, 300 if quick else 3000, quick)
             discretize_corr(ctx, 600 if quick else 8000)
+            from harness.props import c03_r1516 as rx
+            rx.disc_close_corr(ctx, 150 if quick else 3000)
+            rx.ctor_corr(ctx, 150 if quick else 3000)
             slice_corr(ctx, 16, exhaustive=not quick)
             fft_contract(ctx, 100 if quick else 2000)
             if not quick:
@@ -2531,6 +2555,8 @@ def check(ctx):
             ctx.notes.append('correspondence skipped: %s' % e)
             ctx.required_branches = [b for b in REQUIRED if b.startswith('oracle:')]
         oracles(ctx, 300 if quick else 4000, 90 if quick else 1200, 200 if quick else 3000)
+        from harness.props import c03_r1516 as rx
+        rx.oracles(ctx, 30 if quick else 600)
 
 
 def search(ctx):
